@@ -50,7 +50,7 @@ CONTRACTS = [
        top=["C01-decoded-value", "C17-typed-result"],
        raises=MAYRAISE, inst_terms=["FNAME_IDX(field_name)"],
        use=[("AX_UNPACKF_TYPE", {"fmt": "FMT(meta.proto_type)", "b": "as_bytes(old(value))"})],
-       props=["C01", "C02", "C16", "C17", "C20"]),
+       props=["C01", "C02", "C08", "C16", "C17", "C20"]),
     FN("betterproto.Message.load",
        types={**MSG, "stream": "stream", "size": "obj"}, returns="any", modifies=["self", "stream"],
        requires=PRE + [("size-argument", "is_none(size) or (is_pint(size) and as_int(size) >= -1)")],
